@@ -28,6 +28,7 @@ type jsCase struct {
 	Args     []jsArg `json:"args"`
 	Expected string  `json:"expected,omitempty"` // for the debugger monitor only
 	Submit   string  `json:"submitted,omitempty"`
+	Count    bool    `json:"count,omitempty"`
 }
 
 type jsResult struct {
@@ -39,10 +40,25 @@ type jsResult struct {
 }
 
 //go:noinline
-func VerifMarkBegin(submitted, expected string) {}
+func VerifMarkBegin(submitted, expected string, count bool, id int) {}
 
 //go:noinline
-func VerifMarkEnd() {}
+func VerifMarkEnd(ok bool) {}
+
+// verifSettle: see harness/cmd/ctdriver (absorbs a pending cooperative pre-emption request
+// before the measured call; stepped over by the gdb monitor).
+//
+//go:noinline
+func verifSettle(n int) int {
+	var pad [256]byte
+	pad[n&255] = byte(n)
+	return verifSettle2(int(pad[(n+1)&255])) + int(pad[n&255])
+}
+
+//go:noinline
+func verifSettle2(n int) int { return n + 1 }
+
+var sink int
 
 func toValue(a jsArg) js.Value {
 	switch a.T {
@@ -93,9 +109,10 @@ func main() {
 					r.T, r.Thrown = "thrown", fmt.Sprint(x)
 				}
 			}()
-			VerifMarkBegin(c.Submit, c.Expected)
+			VerifMarkBegin(c.Submit, c.Expected, c.Count, c.ID)
+			sink += verifSettle(c.ID)
 			v, ok := js.Call(c.Fn, args)
-			VerifMarkEnd()
+			VerifMarkEnd(ok && v.T == js.TypeBoolean && v.B)
 			switch {
 			case !ok:
 				r.T = "missing"
